@@ -130,8 +130,8 @@ Print Assumptions C20_pickle.
 
 (* binary codec, scalar level (the step shared by the singular, oneof, optional, unpacked-repeated and
    map-value positions): for every int32 number, defined or not, the varint written by
-   _preprocess_single is read back by load_varint and turned by _postprocess_single (with
-   fixes/c20-f3-enum-int32-decode.patch) into the same value: canonical member or open value.
+   _preprocess_single is read back by load_varint and turned by _postprocess_single (as fixed by
+   fixes/c20-f3-enum-int32-decode.patch = /repo commit bdf150b) into the same value: canonical member or open value.
    _partial: the message level (tag, length prefix, which field is written where, presence) is the lead's
    codec model (C01); the five positions are exercised on the implementation by the oracle. *)
 Theorem C20_roundtrip_scalar_partial : forall body v,
@@ -176,7 +176,8 @@ Theorem C20_decoded_is_int32 : forall body raw, int32 (snd (enum_post (class_of 
 Proof. exact decoded_number_is_int32. Qed.
 Print Assumptions C20_decoded_is_int32.
 
-(* the pinned tree (no truncation): right for non-negative numbers, wrong for every negative one — F3 *)
+(* the original snapshot e3745e3 (no truncation; [enum_post_pinned]): right for non-negative numbers, wrong for
+   negative ones — defect F3, repaired by bdf150b; kept as the regression statement *)
 Theorem C20_roundtrip_pinned_nonneg : forall body v,
   0 <= v < 2 ^ 31 -> enum_post_pinned (class_of body) (v mod 2 ^ 64) = try_value (class_of body) v.
 Proof. exact scalar_roundtrip_pinned_partial. Qed.
@@ -195,10 +196,10 @@ Theorem C20_packed_pinned_refuted :
 Proof. exact packed_roundtrip_pinned_refuted. Qed.
 Print Assumptions C20_packed_pinned_refuted.
 
-(* dict / JSON codec, element level (with fixes/c20-f8-unnamed-enum-json.patch): every number comes
+(* dict / JSON codec, element level (as fixed by fixes/c20-f8-unnamed-enum-json.patch = /repo commit f0e3c24;
+   the same element functions serve singular, optional, oneof, repeated and — since a49c080 — map values): every number comes
    back as the same value; a defined number travels as its first declared name, an undefined one as the number.
-   _partial: the message level of to_dict/from_dict (casing, default skipping, containers) is C04's model;
-   map values are not converted by to_dict at all (they stay Enum instances, i.e. numbers in JSON). *)
+   _partial: the message level of to_dict/from_dict (casing, default skipping, containers) is C04's model. *)
 Theorem C20_roundtrip_json_partial : forall body v,
   let c := class_of body in
   from_json_el c (to_json_el c v) = Ok (try_value c v) /\
@@ -219,7 +220,8 @@ Theorem C20_json_accepts_alias : forall body n v,
 Proof. exact json_accepts_alias. Qed.
 Print Assumptions C20_json_accepts_alias.
 
-(* the pinned to_dict: same answer on defined numbers, ValueError on EVERY undefined one — F8 *)
+(* to_dict of the original snapshot ([to_json_el_pinned]): same answer on defined numbers, ValueError on EVERY
+   undefined one — defect F8, repaired by f0e3c24; kept as the regression statement *)
 Theorem C20_json_pinned_defined : forall body v,
   In v (map snd (members_of body)) ->
   to_json_el_pinned (class_of body) v = Ok (to_json_el (class_of body) v).
